@@ -25,7 +25,8 @@ PoseVerdict(t, k) ==
   IF ~WordOK(Cfg(t.base), w) THEN "OOD word" ELSE
   IF ApplyWord(Cfg(t.base), w) # Cfg(ps) THEN "OOD pose" ELSE
   IF ps.exc # "" THEN "REJECT Raised:" \o t.kind ELSE
-  IF ~Within(ps.d, ref.d, Tol(w, t.lmax)) THEN "REJECT PoseInvariance:" \o cls \o ":" \o t.kind \o ":" \o t.channel \o kf ELSE "ok"
+  IF t.kind = "mol-atomic" /\ ~RowsMatch(ps.rows, ref.rows, Tol(w, t.lmax)) THEN "REJECT PoseInvariance:" \o cls \o ":mol-atomic" ELSE
+  IF t.kind # "mol-atomic" /\ ~Within(ps.d, ref.d, Tol(w, t.lmax)) THEN "REJECT PoseInvariance:" \o cls \o ":" \o t.kind \o ":" \o t.channel \o kf ELSE "ok"
 
 RadialOK(t) == \A i \in DOMAIN t.radial :
    LET s == t.radial[i] IN s.r >= s.lo /\ s.r <= s.hi /\ AbsV(s.fv - Scale) <= RadialTol
